@@ -77,8 +77,75 @@ const externStubs = `
 var hmac = struct{ New func(h func() hash.Hash, key []byte) hash.Hash }{}
 var sm3 = struct{ New func() hash.Hash }{}
 var sha256 = struct{ New func() hash.Hash }{}
-var subtle = struct{ ConstantTimeCompare func(x, y []byte) int }{}
+var subtle = struct {
+	ConstantTimeCompare func(x, y []byte) int
+	ConstantTimeSelect  func(v, x, y int) int
+}{}
 
+// the record ciphers of the receive path (Go.RxExtern); errOpaque: an error that is not an alert
+var rxExtern struct {
+	xorKeyStream func(src []byte) []byte
+	aeadOk       func(nonce, ciphertext, additionalData []byte) bool
+	aeadPlain    func(nonce, ciphertext, additionalData []byte) []byte
+	cbcDecrypt   func(iv, src []byte) []byte
+}
+var errOpaque error
+
+`
+
+// curStubs: the view stubs of the group being translated
+var curStubs string
+
+// rxStubs / rxWanted: the receive side of the record layer (halfConn.decrypt and what it calls) is translated
+// over its own views: here halfConn.mac keeps its real type hash.Hash (the keyed-hash model), the ciphers
+// are values whose Open / CryptBlocks / XORKeyStream are parameters of the generated definitions (Go.RxExtern)
+var rxWanted = map[string][]string{
+	"tlcp":  {"extractPadding", "roundUp", "tls10MAC", "halfConn.incSeq", "halfConn.explicitNonceLen", "halfConn.decrypt"},
+	"dtlcp": {"extractPadding", "roundUp", "tls10MAC", "halfConn.explicitNonceLen", "halfConn.decrypt"}, // the DTLCP sequence number is explicit
+}
+
+const rxStubs = `
+type halfConn struct {
+	cipher     interface{} // nil, goStream, goAEAD or goCBC
+	mac        hash.Hash
+	seq        [8]byte
+	scratchBuf [13]byte
+}
+type goStream struct{}
+// cipher.Stream.XORKeyStream: panics when dst is shorter than src, else writes len(src) bytes
+func (s goStream) XORKeyStream(dst, src []byte) {
+	if len(dst) < len(src) {
+		panic("crypto/cipher: output smaller than input")
+	}
+	copy(dst, rxExtern.xorKeyStream(src))
+}
+type goAEAD struct{ overhead, nonce int }
+func (a goAEAD) Overhead() int         { return a.overhead }
+func (a goAEAD) explicitNonceLen() int { return a.nonce }
+// cipher.AEAD.Open: an error, or dst with the plaintext appended
+func (a goAEAD) Open(dst, nonce, ciphertext, additionalData []byte) ([]byte, error) {
+	if !rxExtern.aeadOk(nonce, ciphertext, additionalData) {
+		return nil, errOpaque
+	}
+	return append(dst, rxExtern.aeadPlain(nonce, ciphertext, additionalData)...), nil
+}
+type goCBC struct {
+	blockSize int
+	iv        []byte
+}
+func (b goCBC) BlockSize() int    { return b.blockSize }
+func (b *goCBC) SetIV(iv []byte)  { b.iv = iv }
+// cipher.BlockMode.CryptBlocks of a CBC decrypter: panics on partial blocks or a short dst
+func (b goCBC) CryptBlocks(dst, src []byte) {
+	if len(src)%b.blockSize != 0 {
+		panic("crypto/cipher: input not full blocks")
+	}
+	if len(dst) < len(src) {
+		panic("crypto/cipher: output smaller than input")
+	}
+	copy(dst, rxExtern.cbcDecrypt(b.iv, src))
+}
+func (e alert) Error() string { return "" }
 `
 
 // viewStubs: per package, the part of the connection state the translated methods read.  The
@@ -231,7 +298,7 @@ func synth(d *decls, pkgName string, fns []string) (*token.FileSet, *ast.File, *
 	dropped := map[string]string{}
 	for round := 0; round < 200; round++ {
 		var buf bytes.Buffer
-		fmt.Fprintf(&buf, "package %s\n\nimport \"time\"\nimport \"hash\"\n\nvar _ = time.Now\nvar _ hash.Hash\n\n%s\n", pkgName, externStubs+viewStubs[pkgName])
+		fmt.Fprintf(&buf, "package %s\n\nimport \"time\"\nimport \"hash\"\n\nvar _ = time.Now\nvar _ hash.Hash\n\n%s\n", pkgName, externStubs+curStubs)
 		_ = 0
 		for _, g := range genOrder {
 			printer.Fprint(&buf, d.fset, g)
@@ -365,7 +432,7 @@ func rewriteDynCases(src string) string {
 // the real struct with the same type text unless it is listed as abstracted
 func checkViews(d *decls, pkgName string) error {
 	fsetS := token.NewFileSet()
-	fS, err := parser.ParseFile(fsetS, "stubs.go", "package p\n"+viewStubs[pkgName], 0)
+	fS, err := parser.ParseFile(fsetS, "stubs.go", "package p\n"+curStubs, 0)
 	if err != nil {
 		return err
 	}
@@ -464,7 +531,7 @@ type tr struct {
 	recv    types.Object
 	results []types.Object // named results
 	meta    *fnMeta
-	pre     []string              // statements to emit before the one being translated
+	pre     []string                // statements to emit before the one being translated
 	pkgVars map[types.Object]string // package-level variables emitted as Lean constants
 	tmpN    int
 	loopN   int
@@ -486,8 +553,9 @@ type fnMeta struct {
 	mutRecv  bool // assigns through its pointer receiver
 	hasRecv  bool
 	ptrRecv  bool
-	mutParam []string // names of slice parameters written through (returned after the receiver)
-	usesExt  bool     // calls a modelled library function: takes `(ext : Go.Extern)` first
+	mutParam []string     // names of slice parameters written through (returned after the receiver)
+	usesExt  bool         // calls a modelled library function: takes `(ext : Go.Extern)` first
+	usesRx   bool         // calls a modelled record cipher: takes `(rx : Go.RxExtern)` (after ext)
 	inner    *ast.FuncLit // body is `return func(params) {…}`: translated uncurried (outer ++ inner parameters)
 }
 
@@ -566,7 +634,45 @@ func isHashCtor(ty types.Type) bool {
 	return ok && sg.Params().Len() == 0 && sg.Results().Len() == 1 && isHashIface(sg.Results().At(0).Type())
 }
 
+func isErrorType(ty types.Type) bool {
+	return ty != nil && types.Identical(ty, types.Universe.Lookup("error").Type())
+}
+
+// exprAs: e where a value of type `to` is expected (the implicit conversions to `error`)
+func (t *tr) exprAs(e ast.Expr, to types.Type) string {
+	if id, ok := e.(*ast.Ident); ok && id.Name == "nil" && !isErrorType(to) {
+		if _, isNil := t.info.Uses[id].(*types.Nil); isNil {
+			return t.zero(to)
+		}
+	}
+	if !isErrorType(to) {
+		return t.expr(e)
+	}
+	if id, ok := e.(*ast.Ident); ok {
+		switch id.Name {
+		case "nil":
+			return "none"
+		case "errOpaque":
+			return "(some Go.Error.other)"
+		}
+	}
+	et := t.typeOf(e)
+	if isErrorType(et) {
+		return t.expr(e)
+	}
+	if n, ok := et.(*types.Named); ok && n.Obj().Name() == "alert" {
+		if w, signed, _ := intKind(et); w == 8 && !signed {
+			return "(some (Go.Error.alert " + t.atom(e) + "))"
+		}
+	}
+	bad("conversion of %s to error", et)
+	return ""
+}
+
 func (t *tr) leanType(ty types.Type) string {
+	if isErrorType(ty) {
+		return "Option Go.Error"
+	}
 	if isHashIface(ty) {
 		return "Go.Hmac"
 	}
@@ -664,8 +770,11 @@ func intKind(ty types.Type) (width int, signed bool, isInt bool) {
 }
 
 func (t *tr) zero(ty types.Type) string {
+	if isErrorType(ty) {
+		return "none"
+	}
 	if isHashIface(ty) {
-		return "{}"
+		return "{ alg := Go.HashAlg.none }"
 	}
 	if isHashCtor(ty) {
 		return "Go.HashAlg.sm3"
@@ -900,7 +1009,7 @@ func (t *tr) expr(e ast.Expr) string {
 		if x.Slice3 {
 			bad("3-index slice")
 		}
-		lo, hi := "(0 : Int)", "((" + t.expr(x.X) + ").length : Int)"
+		lo, hi := "(0 : Int)", "(("+t.expr(x.X)+").length : Int)"
 		if x.Low != nil {
 			lo = t.intOf(x.Low)
 		}
@@ -1001,6 +1110,26 @@ func (t *tr) binary(op token.Token, X, Y ast.Expr, resTy types.Type) string {
 						return "(" + t.expr(other) + " == Dyn.nil)"
 					}
 					return "(" + t.expr(other) + " != Dyn.nil)"
+				}
+				if op == token.EQL || op == token.NEQ {
+					neg := ""
+					if op == token.EQL {
+						neg = "!"
+					}
+					ot := t.typeOf(other)
+					if isHashIface(ot) {
+						return "(" + neg + "Go.Hmac.present " + t.atom(other) + ")"
+					}
+					if isErrorType(ot) {
+						return "(" + neg + "(" + t.expr(other) + ").isSome)"
+					}
+					if sl, ok := ot.Underlying().(*types.Slice); ok {
+						if w, _, _ := intKind(sl.Elem()); w == 8 {
+							// nil and empty slices are the same List: the outcome is a parameter
+							t.meta.usesRx = true
+							return "(" + neg + "rx.nonNil " + t.atom(other) + ")"
+						}
+					}
 				}
 				bad("comparison with nil (nil and empty slices are not distinguished)")
 			}
@@ -1237,6 +1366,10 @@ func (t *tr) call(c *ast.CallExpr) string {
 		s += " ext"
 		t.meta.usesExt = true
 	}
+	if callee.usesRx {
+		s += " rx"
+		t.meta.usesRx = true
+	}
 	if recvArg != "" {
 		s += " " + recvArg
 	}
@@ -1265,6 +1398,16 @@ func (t *tr) externCall(c *ast.CallExpr) (string, bool) {
 				bad("hmac.New arity")
 			case "subtle.ConstantTimeCompare":
 				return "(Go.constantTimeCompare " + t.atom(c.Args[0]) + " " + t.atom(c.Args[1]) + ")", true
+			case "subtle.ConstantTimeSelect":
+				return "(Go.constantTimeSelect " + t.atom(c.Args[0]) + " " + t.atom(c.Args[1]) + " " + t.atom(c.Args[2]) + ")", true
+			}
+			if id.Name == "rxExtern" {
+				t.meta.usesRx = true
+				r := "(rx." + sel.Sel.Name
+				for _, a := range c.Args {
+					r += " " + t.atom(a)
+				}
+				return r + ")", true
 			}
 		}
 	}
@@ -1273,12 +1416,15 @@ func (t *tr) externCall(c *ast.CallExpr) (string, bool) {
 		if isHashIface(s.Recv()) {
 			switch sel.Sel.Name {
 			case "Sum":
-				if id, ok := c.Args[0].(*ast.Ident); !ok || id.Name != "nil" {
-					bad("Sum with a non-nil prefix")
-				}
 				t.meta.usesExt = true
 				h := t.atom(sel.X)
+				if id, ok := c.Args[0].(*ast.Ident); !ok || id.Name != "nil" {
+					// Sum(prefix): the digest appended to the prefix
+					return "(" + t.atom(c.Args[0]) + " ++ ext.hmac " + h + ".alg " + h + ".key " + h + ".input)", true
+				}
 				return "(ext.hmac " + h + ".alg " + h + ".key " + h + ".input)", true
+			case "Size":
+				return t.act("Go.hashSize " + t.atom(sel.X)), true
 			}
 			bad("method %s of a hash in expression position", sel.Sel.Name)
 		}
@@ -1468,6 +1614,20 @@ func (t *tr) stmt(o *out, s ast.Stmt) {
 		}
 	case *ast.AssignStmt:
 		if x.Tok == token.DEFINE || x.Tok == token.ASSIGN {
+			if call, isCall := x.Rhs[0].(*ast.CallExpr); isCall && len(x.Rhs) == 1 && len(x.Lhs) > 1 {
+				// a, b = f(...): bind the tuple, then assign its components
+				tmp := fmt.Sprintf("tup%d'", t.tmpN)
+				t.tmpN++
+				t.emit(o, "let %s := %s", tmp, t.expr(call))
+				for i, l := range x.Lhs {
+					proj := tmp + strings.Repeat(".2", i)
+					if i < len(x.Lhs)-1 {
+						proj += ".1"
+					}
+					t.assignOrDefine(o, x.Tok, l, proj)
+				}
+				return
+			}
 			if len(x.Lhs) != len(x.Rhs) {
 				bad("multi-value assignment %s", t.src(x))
 			}
@@ -1493,7 +1653,7 @@ func (t *tr) stmt(o *out, s ast.Stmt) {
 				t.assignOrDefine(o, x.Tok, x.Lhs[0], t.zero(t.typeOf(x.Lhs[0])))
 				return
 			}
-			t.assignOrDefine(o, x.Tok, x.Lhs[0], t.expr(x.Rhs[0]))
+			t.assignOrDefine(o, x.Tok, x.Lhs[0], t.exprAs(x.Rhs[0], t.typeOf(x.Lhs[0])))
 			return
 		}
 		bop, ok := opAssign[x.Tok]
@@ -1508,8 +1668,24 @@ func (t *tr) stmt(o *out, s ast.Stmt) {
 				vals = append(vals, t.name(r))
 			}
 		} else {
-			for _, r := range x.Results {
-				vals = append(vals, t.expr(r))
+			var rts []types.Type
+			if fr := t.meta.resultsOf(); fr != nil {
+				for _, f := range fr.List {
+					k := len(f.Names)
+					if k == 0 {
+						k = 1
+					}
+					for j := 0; j < k; j++ {
+						rts = append(rts, t.info.Types[f.Type].Type)
+					}
+				}
+			}
+			for i, r := range x.Results {
+				if i < len(rts) && len(rts) == len(x.Results) {
+					vals = append(vals, t.exprAs(r, rts[i]))
+				} else {
+					vals = append(vals, t.expr(r))
+				}
 			}
 		}
 		t.emit(o, "return %s", t.retExpr(vals))
@@ -1601,6 +1777,10 @@ func (t *tr) copyStmt(o *out, c *ast.CallExpr) {
 // procCall: a call, for its effect, of a translated procedure (no results) that writes through exactly
 // one slice argument: the argument is re-bound to the value the procedure returns
 func (t *tr) procCall(o *out, callee *fnMeta, args []ast.Expr, c *ast.CallExpr) bool {
+	return t.procCallR(o, callee, "", args, c)
+}
+
+func (t *tr) procCallR(o *out, callee *fnMeta, recvArg string, args []ast.Expr, c *ast.CallExpr) bool {
 	res := callee.resultsOf()
 	if len(callee.mutParam) != 1 || callee.mutRecv || (res != nil && res.NumFields() > 0) {
 		return false
@@ -1618,6 +1798,13 @@ func (t *tr) procCall(o *out, callee *fnMeta, args []ast.Expr, c *ast.CallExpr) 
 	if callee.usesExt {
 		sx += " ext"
 		t.meta.usesExt = true
+	}
+	if callee.usesRx {
+		sx += " rx"
+		t.meta.usesRx = true
+	}
+	if recvArg != "" {
+		sx += " " + recvArg
 	}
 	for _, a := range args {
 		sx += " " + t.atom(a)
@@ -1675,8 +1862,20 @@ func (t *tr) callStmt(o *out, c *ast.CallExpr) {
 	// method call for its effect on the receiver
 	if f, ok := c.Fun.(*ast.SelectorExpr); ok {
 		if sel := t.info.Selections[f]; sel != nil && sel.Kind() == types.MethodVal {
+			if callee := t.byObj[sel.Obj()]; callee != nil && !callee.mutRecv && t.procCallR(o, callee, t.atom(f.X), c.Args, c) {
+				return
+			}
 			if callee := t.byObj[sel.Obj()]; callee != nil && callee.mutRecv {
-				s := callee.leanName + " " + t.atom(f.X)
+				s := callee.leanName
+				if callee.usesExt {
+					s += " ext"
+					t.meta.usesExt = true
+				}
+				if callee.usesRx {
+					s += " rx"
+					t.meta.usesRx = true
+				}
+				s += " " + t.atom(f.X)
 				for _, a := range c.Args {
 					s += " " + t.atom(a)
 				}
@@ -1709,6 +1908,13 @@ func assigned(body ast.Node, info *types.Info, obj types.Object) bool {
 		case *ast.IncDecStmt:
 			if id, ok := s.X.(*ast.Ident); ok && info.Uses[id] == obj {
 				found = true
+			}
+		case *ast.CallExpr:
+			// h.Write / h.Reset on a modelled hash re-binds h
+			if f, ok := s.Fun.(*ast.SelectorExpr); ok && (f.Sel.Name == "Write" || f.Sel.Name == "Reset") {
+				if id, ok := f.X.(*ast.Ident); ok && info.Uses[id] == obj && isHashIface(obj.Type()) {
+					found = true
+				}
 			}
 		}
 		return true
@@ -1993,6 +2199,10 @@ func (t *tr) typeSwitchStmt(o *out, s *ast.TypeSwitchStmt) {
 		t.emit(o, "| .%s %s =>", tn, v)
 		o.indent++
 		n := o.b.Len()
+		if v != "_" && t.mutatedByMethod(cc, t.info.Implicits[cc]) {
+			t.emit(o, "let mut %s := %s", v, v)
+			n = o.b.Len()
+		}
 		t.stmts(o, cc.Body)
 		if o.b.Len() == n {
 			t.emit(o, "pure ()")
@@ -2009,6 +2219,28 @@ func (t *tr) typeSwitchStmt(o *out, s *ast.TypeSwitchStmt) {
 		t.emit(o, "pure ()")
 	}
 	o.indent--
+}
+
+// mutatedByMethod: the clause calls a receiver-assigning method on obj (the type switch's variable)
+func (t *tr) mutatedByMethod(cc *ast.CaseClause, obj types.Object) bool {
+	found := false
+	ast.Inspect(cc, func(n ast.Node) bool {
+		c, ok := n.(*ast.CallExpr)
+		if !ok {
+			return true
+		}
+		if f, ok := c.Fun.(*ast.SelectorExpr); ok {
+			if id, ok := f.X.(*ast.Ident); ok && t.info.Uses[id] == obj {
+				if sel := t.info.Selections[f]; sel != nil && sel.Kind() == types.MethodVal {
+					if callee := t.byObj[sel.Obj()]; callee != nil && callee.mutRecv {
+						found = true
+					}
+				}
+			}
+		}
+		return true
+	})
+	return found
 }
 
 func (t *tr) switchStmt(o *out, s *ast.SwitchStmt) {
@@ -2307,6 +2539,9 @@ func (t *tr) function(m *fnMeta) (text string, err error) {
 		}
 		t.emit(o, "return %s", t.retExpr(vals))
 	}
+	if m.usesRx {
+		params = append([]string{"(rx : Go.RxExtern)"}, params...)
+	}
 	if m.usesExt {
 		params = append([]string{"(ext : Go.Extern)"}, params...)
 	}
@@ -2395,12 +2630,36 @@ func (t *tr) structure(n *types.Named) string {
 	return b.String()
 }
 
-func translatePackage(repo, name string, w *strings.Builder, untranslated *[]string) {
-	fmt.Fprintf(w, "namespace %s\n\n", name)
-	defer fmt.Fprintf(w, "end %s\n\n", name)
+// group: one synthetic file = one package + one set of view stubs + the functions translated over them
+type group struct {
+	pkg   string
+	sub   string // Lean sub-namespace ("" = the package namespace itself)
+	stubs string
+	funcs []string
+}
+
+func allGroups() []group {
+	var gs []group
+	for _, name := range pkgOrder {
+		gs = append(gs, group{pkg: name, stubs: viewStubs[name], funcs: wanted[name]})
+		gs = append(gs, group{pkg: name, sub: "rx", stubs: rxStubs, funcs: rxWanted[name]})
+	}
+	return gs
+}
+
+func translatePackage(repo string, g group, w *strings.Builder, untranslated *[]string) {
+	name := g.pkg
+	ns := name
+	if g.sub != "" {
+		ns = name + "." + g.sub
+	}
+	fmt.Fprintf(w, "namespace %s\n\n", ns)
+	defer fmt.Fprintf(w, "end %s\n\n", ns)
+	wanted := map[string][]string{name: g.funcs}
+	curStubs = g.stubs
 	fail := func(reason string) {
 		for _, fn := range wanted[name] {
-			*untranslated = append(*untranslated, name+"."+fn)
+			*untranslated = append(*untranslated, ns+"."+fn)
 		}
 		fmt.Fprintf(w, "-- package not translated: %s\n\n", strings.ReplaceAll(reason, "\n", " "))
 	}
@@ -2413,14 +2672,14 @@ func translatePackage(repo, name string, w *strings.Builder, untranslated *[]str
 	var present []string
 	for _, fn := range wanted[name] {
 		if viewErr != nil && (strings.HasPrefix(fn, "Conn.") || strings.HasPrefix(fn, "halfConn.") || strings.HasPrefix(fn, "RetransmitTimer.") || fn == "masterFromPreMasterSecret" || fn == "keysFromMasterSecret") {
-			*untranslated = append(*untranslated, name+"."+fn)
+			*untranslated = append(*untranslated, ns+"."+fn)
 			fmt.Fprintf(w, "-- %s not translated: %v\n\n", fn, viewErr)
 			continue
 		}
 		if d.funcs[fn] != nil {
 			present = append(present, fn)
 		} else {
-			*untranslated = append(*untranslated, name+"."+fn)
+			*untranslated = append(*untranslated, ns+"."+fn)
 			fmt.Fprintf(w, "-- %s: no such function in the tree\n\n", fn)
 		}
 	}
@@ -2432,14 +2691,14 @@ func translatePackage(repo, name string, w *strings.Builder, untranslated *[]str
 		}
 		sort.Strings(ks)
 		for _, k := range ks {
-			*untranslated = append(*untranslated, name+"."+k)
+			*untranslated = append(*untranslated, ns+"."+k)
 			fmt.Fprintf(w, "-- %s not translated: %s\n\n", k, droppedFns[k])
 		}
 	}
 	if err != nil {
 		for _, fn := range present {
 			if droppedFns[fn] == "" {
-				*untranslated = append(*untranslated, name+"."+fn)
+				*untranslated = append(*untranslated, ns+"."+fn)
 			}
 		}
 		fmt.Fprintf(w, "-- package not translated: %s\n\n", strings.ReplaceAll(err.Error(), "\n", " "))
@@ -2469,6 +2728,46 @@ func translatePackage(repo, name string, w *strings.Builder, untranslated *[]str
 		m.inner = closureOf(fd)
 		t.byObj[m.obj] = m
 		metas = append(metas, m)
+	}
+	// a pointer-receiver method that calls a receiver-assigning method on (a field path of) its own receiver
+	// assigns through its receiver too
+	for round := 0; round < 6; round++ {
+		for _, m := range metas {
+			if m.mutRecv || !m.ptrRecv || m.decl.Body == nil {
+				continue
+			}
+			rn := m.decl.Recv.List[0].Names[0].Name
+			ast.Inspect(m.decl.Body, func(n ast.Node) bool {
+				c, ok := n.(*ast.CallExpr)
+				if !ok {
+					return true
+				}
+				f, ok := c.Fun.(*ast.SelectorExpr)
+				if !ok {
+					return true
+				}
+				sel := info.Selections[f]
+				if sel == nil || sel.Kind() != types.MethodVal {
+					return true
+				}
+				callee := t.byObj[sel.Obj()]
+				if callee == nil || !callee.mutRecv {
+					return true
+				}
+				e := f.X
+				for {
+					if x, ok := e.(*ast.SelectorExpr); ok {
+						e = x.X
+						continue
+					}
+					break
+				}
+				if id, ok := e.(*ast.Ident); ok && id.Name == rn {
+					m.mutRecv = true
+				}
+				return true
+			})
+		}
 	}
 	// slice parameters written through: fixpoint over the call graph
 	byName := map[string]*fnMeta{}
@@ -2595,7 +2894,7 @@ func translatePackage(repo, name string, w *strings.Builder, untranslated *[]str
 		for _, sp := range gd.Specs {
 			vs := sp.(*ast.ValueSpec)
 			for i, nm := range vs.Names {
-				if nm.Name == "_" || i >= len(vs.Values) || nm.Name == "hmac" || nm.Name == "sm3" || nm.Name == "sha256" || nm.Name == "subtle" {
+				if nm.Name == "_" || i >= len(vs.Values) || nm.Name == "hmac" || nm.Name == "sm3" || nm.Name == "sha256" || nm.Name == "subtle" || nm.Name == "rxExtern" || nm.Name == "errOpaque" {
 					continue
 				}
 				obj := info.Defs[nm]
@@ -2620,12 +2919,34 @@ func translatePackage(repo, name string, w *strings.Builder, untranslated *[]str
 			}
 		}
 	}
+	aliasSums := map[*fnMeta]*aliasSummary{}
 	for _, m := range metas {
+		// slices get value semantics: refuse a function in which shared storage could be observed (alias.go)
+		hz := aliasAnalyse(t, m, aliasSums)
+		if len(hz) > 0 {
+			why, reviewed := aliasReviewed[m.goName]
+			if !reviewed {
+				*untranslated = append(*untranslated, ns+"."+m.goName)
+				fmt.Fprintf(w, "-- %s not translated: slices that share storage (value semantics would be wrong):\n", m.goName)
+				for _, h := range hz {
+					fmt.Fprintf(w, "--   %s\n", h)
+				}
+				w.WriteString("\n")
+				delete(t.byObj, m.obj)
+				continue
+			}
+			fmt.Fprintf(w, "/- %s: %d places where two slices share storage and one is written while the other is still read.\n   Reviewed (aliasReviewed in go2lean): %s\n", m.goName, len(hz), why)
+			for _, h := range hz {
+				fmt.Fprintf(w, "   * %s\n", h)
+			}
+			w.WriteString("-/\n")
+		}
 		// two passes: the first discovers whether the body needs the Except monad / the externs
 		m.panics = false
 		m.usesExt = false
+		m.usesRx = false
 		if _, err := t.function(m); err != nil {
-			*untranslated = append(*untranslated, name+"."+m.goName)
+			*untranslated = append(*untranslated, ns+"."+m.goName)
 			fmt.Fprintf(w, "-- %s not translated: %s\n\n", m.goName, err)
 			delete(t.byObj, m.obj)
 			continue
@@ -2639,12 +2960,16 @@ func translatePackage(repo, name string, w *strings.Builder, untranslated *[]str
 func main() {
 	repo := flag.String("repo", "/repo", "repository root")
 	outLean := flag.String("out", "", "path of Src.lean to (re)write (stdout when empty)")
+	self := flag.Bool("selftest", false, "run the alias-analysis self test and exit")
 	flag.Parse()
+	if *self {
+		os.Exit(selfTest())
+	}
 	var w strings.Builder
 	w.WriteString("/-\nGENERATED by harness/cmd/go2lean from the Go sources of /repo — do not edit.\nRewritten on every check run: a shallow embedding of selected pure functions, statement by\nstatement.  `Gotlcp.Lemmas.Tie*` prove these definitions equal to the hand-written models.\n-/\nimport Gotlcp.Base.GoSem\n\nset_option linter.unusedVariables false\n\nnamespace Gotlcp.Src\n\n")
 	var untranslated []string
-	for _, name := range pkgOrder {
-		translatePackage(*repo, name, &w, &untranslated)
+	for _, g := range allGroups() {
+		translatePackage(*repo, g, &w, &untranslated)
 	}
 	sort.Strings(untranslated)
 	var q []string
